@@ -34,7 +34,9 @@ import (
 	"k8s.io/klog/v2"
 )
 
-var errRetry = errors.New("retry")
+// errRetry tells backoff.Retry to try again: it only retries gRPC codes it
+// knows to be transient and errors of the RetriableError type.
+var errRetry error = backoff.RetriableError("retry")
 
 // PreorderedLogClient is a means of communicating with a single Trillian
 // pre-ordered log tree.
